@@ -15,6 +15,8 @@ import warnings
 
 import numpy as np
 
+from common import relayout
+
 from tlc import run_tlc, read_json
 
 Q = 4
@@ -231,15 +233,15 @@ Next == x' = x
                     n1d = shape[coord]
                     for nthread, nparts in ((1, None), (2, None), (4, None), (3, 2), (16, None), (2, max(2, 2 * (n1d // 6))), (1, 3), (1, 1), (1, 5 + 2 * (rep % 3)), (1, 2 * (1 + rep % 4))):   # one thread accepts any stripe count, odd ones too
                         try:
-                            g2 = supplied(pos.copy(), base.copy(), box, weights=None if w is None else w.copy(), nthread=nthread, npartition=nparts,
+                            g2 = supplied(relayout(pos, rep + nthread), base.copy(), box, weights=None if w is None else relayout(w, rep // 3 + coord), nthread=nthread, npartition=nparts,
                                               coord=coord, sort=bool((rep // 2) % 2), offset=off)
                         except ValueError:
                             continue
                         compare('tsc_parallel', kind, shape, box, ms, wl, o, g2, base=base, info=f'nthread={nthread} npartition={nparts} coord={coord} sort={bool((rep // 2) % 2)}')
             else:
                 g = base.copy()
-                cic_serial(pos, g, box, weights=w)
-                compare('cic_serial', kind, shape, box, ms, wl, 0, g, base=base, twoD=twoD, info='accumulate')
+                cic_serial(relayout(pos, rep // 2), g, box, weights=None if w is None else relayout(w, rep // 5))
+                compare('cic_serial', kind, shape, box, ms, wl, 0, g, base=base, twoD=twoD, info=f'accumulate layout={(rep // 2) % 3}')
         chk.part('S2_sets', runs=nrun[0])
         # ---- S3: out-of-range positions with wrap (tsc_parallel), and the value BoxSize on every axis
         for rep in range(30 if chk.quick else 300):
